@@ -444,3 +444,42 @@ v("c13-fold-right", "C13", PBL,
 v("c13-not-is-eq-true", "C13", PBL, "                return getattr(left, op_name)(data_algebra.expr_rep.Value(False))", "                return getattr(left, op_name)(data_algebra.expr_rep.Value(True))")
 v("c13-minus-nary", "C13", PBL, "                    if op_name in {\"+\", \"*\"}:", "                    if op_name in {\"+\", \"*\", \"-\"}:")
 v("c13-twin-dict-format", "C13", PBL, "    \"==\": \"__eq__\",\n    \"!=\": \"__ne__\",", "    \"!=\": \"__ne__\",\n    \"==\": \"__eq__\",", expect="silent")
+
+# ---------------------------------------------------------------- C17
+v("c17-inverse-not-swapped", "C17", "cdata.py",
+  "            blocks_in=self.blocks_out, blocks_out=self.blocks_in, strict=True", "            blocks_in=self.blocks_in, blocks_out=self.blocks_out, strict=True")
+v("c17-transform-order-swapped", "C17", "cdata.py",
+  "        if self.blocks_in is not None:\n            X = local_data_model.blocks_to_rowrecs(X, blocks_in=self.blocks_in)\n        if self.blocks_out is not None:\n            X = local_data_model.rowrecs_to_blocks(\n                X,\n                blocks_out=self.blocks_out,\n            )\n        return X",
+  "        if self.blocks_out is not None:\n            X = local_data_model.rowrecs_to_blocks(\n                X,\n                blocks_out=self.blocks_out,\n            )\n        if self.blocks_in is not None:\n            X = local_data_model.blocks_to_rowrecs(X, blocks_in=self.blocks_in)\n        return X")
+v("c17-transform-wrong-guard", "C17", "cdata.py",
+  "        if self.blocks_out is not None:\n            X = local_data_model.rowrecs_to_blocks(", "        if self.blocks_in is not None:\n            X = local_data_model.rowrecs_to_blocks(")
+v("c17-compose-order", "C17", "cdata.py", "        s1 = other\n        s2 = self\n", "        s1 = self\n        s2 = other\n")
+v("c17-transform-drops-result", "C17", "cdata.py",
+  "            X = local_data_model.blocks_to_rowrecs(X, blocks_in=self.blocks_in)", "            Y = local_data_model.blocks_to_rowrecs(X, blocks_in=self.blocks_in)")
+v("c17-sql-wrong-spec", "C17", VR,
+  "            pi, si = db_model.row_recs_to_blocks_query_str_list_pair(\n                record_spec=self.record_map.blocks_out", "            pi, si = db_model.row_recs_to_blocks_query_str_list_pair(\n                record_spec=self.record_map.blocks_in")
+v("c17-twin-local-name", "C17", "cdata.py",
+  "        assert self.strict\n        return RecordMap(\n            blocks_in=self.blocks_out, blocks_out=self.blocks_in, strict=True\n        )",
+  "        assert self.strict\n        inv = RecordMap(\n            blocks_in=self.blocks_out, blocks_out=self.blocks_in, strict=True\n        )\n        return inv", expect="silent")
+
+# ---------------------------------------------------------------- C19
+v("c19-table-step-returns-input", "C19", PB,
+  "        res = df.loc[:, columns_using]\n        res = self.clean_copy(res)\n        return res", "        res = df\n        return res")
+v("c19-table-step-drop-indices-on-input", "C19", PB,
+  "        res = df.loc[:, columns_using]\n        res = self.clean_copy(res)\n        return res", "        self.drop_indices(df)\n        res = df.loc[:, columns_using]\n        res = self.clean_copy(res)\n        return res")
+v("c19-polars-extend-aliases-partition", "C19", "polars_model.py",
+  "            order_cols = list(partition_by)\n            partition_set = set(partition_by)\n            for c in op.order_by:\n                if c not in partition_set:\n                    order_cols.append(c)",
+  "            order_cols = partition_by\n            partition_set = set(partition_by)\n            for c in op.order_by:\n                if c not in partition_set:\n                    order_cols.append(c)")
+v("c19-pandas-join-extends-on_a", "C19", PB,
+  "            on_a = [scratch_col]\n            on_b = [scratch_col]\n", "            on_a.append(scratch_col)\n            on_b.append(scratch_col)\n")
+v("c19-sql-extend-mutates-ops", "C19", SM,
+  "        subops = OrderedDict()\n        for k, op in extend_node.ops.items():\n            if k in using:\n                subops[k] = op",
+  "        subops = extend_node.ops\n        for k in [k for k in subops.keys() if k not in using]:\n            del subops[k]")
+v("c19-sqlite-right-join-mutates-node", "C19", "SQLite.py",
+  "        join_node_copy_right = copy.copy(join_node)\n", "        join_node_copy_right = join_node\n")
+v("c19-node-method-caches", "C19", VR,
+  "        self.columns_used()  # for table consistency check/raise\n        if pretty:", "        self.column_names = tuple(self.column_names)\n        self.columns_used()  # for table consistency check/raise\n        if pretty:")
+v("c19-transform-inplace-on-X", "C19", "cdata.py",
+  "        X = local_data_model.clean_copy(X)\n        if self.blocks_in is not None:", "        X.reset_index(drop=True, inplace=True)\n        if self.blocks_in is not None:")
+v("c19-twin-copy-list", "C19", "polars_model.py",
+  "            order_cols = list(partition_by)\n", "            order_cols = [c for c in partition_by]\n", expect="silent")
